@@ -1,4 +1,4 @@
-import FrappyProofs.Lemmas.Comm
+import FrappyProofs.Lemmas.CommRun
 import FrappyModel.Generated.C16
 /-
 C16 — property theorems (nothing but property theorems and their non-vacuity examples).
@@ -76,6 +76,21 @@ example : (readline [13, 10] [] [[97], [98, 13, 10, 99], [100]]).view = (some [9
 example : (readbytes 3 [1] [[2], [3, 4], [5]]).view = (some [1, 2, 3], [4, 5]) := by decide
 
 
+def findingCfgA : Cfg := { bytesMode := false, eol := [10], timeout := 2000000, waitBefore := 0, interval := 3000000,
+                           gran := 1000000, slack := 300 }
+
+/-- caller 1: multicomm [A (reply), W (no reply, delay 0.2 s)]; caller 2: communicate D, waiting for the lock meanwhile -/
+def atomicRun : List TEv := [
+  ⟨5000000, .call 1 .multi [⟨[65, 10], true, 0, 0⟩, ⟨[87, 10], false, 0, 200000⟩]⟩, ⟨5000000, .acq 1⟩, ⟨5000000, .chk 1 false⟩,
+  ⟨5000000, .now 1 5000001⟩, ⟨5000001, .now 1 5000002⟩, ⟨5000002, .connect 1 true true⟩, ⟨5000003, .isconn 1 true⟩,
+  ⟨5000003, .acq 1⟩, ⟨5000003, .flush 1⟩, ⟨5000003, .send 1 0 0 [65, 10]⟩,
+  ⟨5000004, .call 2 .comm [⟨[68, 10], true, 0, 0⟩]⟩, ⟨5000004, .chk 2 true⟩,
+  ⟨5100000, .arrive 0 (some 0) [97, 10]⟩, ⟨5100000, .recv 1 (.data [97, 10])⟩, ⟨5100000, .rel 1⟩,
+  ⟨5100000, .chk 1 true⟩, ⟨5100000, .acq 1⟩, ⟨5100000, .flush 1⟩, ⟨5100000, .send 1 0 1 [87, 10]⟩, ⟨5100000, .rel 1⟩,
+  ⟨5100000, .slp 1 200000⟩, ⟨5300000, .wake 1⟩, ⟨5300000, .rel 1⟩, ⟨5300000, .ret 1 (.ok [[97]])⟩,
+  ⟨5300000, .acq 2⟩, ⟨5300000, .flush 2⟩, ⟨5300000, .send 2 0 2 [68, 10]⟩,
+  ⟨5400000, .arrive 0 (some 2) [100, 10]⟩, ⟨5400000, .recv 2 (.data [100, 10])⟩, ⟨5400000, .rel 2⟩, ⟨5400000, .ret 2 (.ok [[100]])⟩]
+
 /-! ## the transaction model: full statements, and what is proved of them
 
 A run is accepted by the model iff `exec init evs` is defined.  The full clauses quantify over ALL accepted runs (all
@@ -86,7 +101,6 @@ judged by its monitor on every recorded run, and every recorded run is replayed 
 
 def Accepted (cfg : Cfg) (cbs : List Nat) (evs : List TEv) : Prop := (exec { cfg := cfg, cbsReg := cbs } evs).isSome = true
 
-def multicomm_atomic_statement : Prop := ∀ cfg cbs evs, Accepted cfg cbs evs → MulticommAtomic evs
 def delays_honoured_statement : Prop := ∀ cfg cbs evs, Accepted cfg cbs evs → DelaysHonoured evs
 def stale_discarded_statement : Prop := ∀ cfg cbs evs, Accepted cfg cbs evs → StaleDiscarded cfg.bytesMode cfg.eol evs
 def reply_pairing_statement : Prop := ∀ cfg cbs evs, Accepted cfg cbs evs → ReplyPairing cfg.bytesMode cfg.eol evs
@@ -94,6 +108,86 @@ def fails_within_timeout_statement : Prop := ∀ cfg cbs evs, Accepted cfg cbs e
 def state_visible_statement : Prop := ∀ cfg cbs evs, Accepted cfg cbs evs → StateVisible evs ∧ StateNotOverwritten evs
 def reconnect_rate_limited_statement : Prop := ∀ cfg cbs evs, Accepted cfg cbs evs → RateLimitedAll cfg evs
 def callbacks_once_statement : Prop := ∀ cfg cbs evs, Accepted cfg cbs evs → CallbacksOnce cbs evs
+
+/-- The lock is exclusive, for every accepted run (every schedule of any number of callers, every device): at most one
+caller is inside `with self._lock` (at any depth), and it is the owner. -/
+theorem lock_exclusive (cfg : Cfg) (cbs : List Nat) (evs : List TEv) (s : State)
+    (h : exec { cfg := cfg, cbsReg := cbs } evs = some s) (c c' : Nat)
+    (hc : 0 < (s.callers c).held) (hc' : 0 < (s.callers c').held) : c = c' := by
+  have hi := inv_exec cfg cbs evs s h
+  have h1 := hi.li1 c hc
+  have h2 := hi.li1 c' hc'
+  rw [h1] at h2; simpa using h2
+
+/-- A multi-command transaction is never interleaved with other traffic — for EVERY accepted run: between two sends
+of one call of caller `c` (no return of `c` in between) every send is `c`'s.  (A `multicomm` holds the re-entrant
+lock from before its first send until after its last; `communicate`/`writeline` send once.) -/
+theorem multicomm_atomic (cfg : Cfg) (cbs : List Nat) (evs : List TEv) (hacc : Accepted cfg cbs evs) :
+    MulticommAtomic evs := by
+  intro i j k c c' hij hjk hsi hsk hnr hsj
+  unfold Accepted at hacc
+  cases hex : exec { cfg := cfg, cbsReg := cbs } evs with
+  | none => simp [hex] at hacc
+  | some sf =>
+    have hklt := sendAt_lt_length evs k c hsk
+    -- the event at position k
+    obtain ⟨ek, hek⟩ : ∃ ek, evs[k]? = some ek := ⟨evs[k], by simp [hklt]⟩
+    obtain ⟨sk, sk', hpre, hst⟩ := exec_cut _ evs k ek hek sf hex
+    have hi := inv_exec cfg cbs (evs.take k) sk hpre
+    -- event k is a send of c, accepted from sk: c holds the lock there
+    have hev : ∃ conn n d, ek.ev = .send c conn n d := by
+      simp only [sendAt, evAt, hek, Option.map_some] at hsk
+      cases hv : ek.ev <;> simp only [hv] at hsk <;> try (simp at hsk)
+      subst hsk; exact ⟨_, _, _, rfl⟩
+    obtain ⟨conn, n, d, hv⟩ := hev
+    have hheld : 0 < (sk.callers c).held := by
+      rw [step_caller_form sk ek c (by rw [hv]; rfl)] at hst
+      split at hst
+      · simp at hst
+      · rw [hv] at hst
+        have hp := stale_send_pc _ _ _ _ _ _ _ hst
+        have hk := hi.hk c
+        simp only [heldOk] at hk
+        simp only at hp
+        rw [hp] at hk
+        simp only at hk
+        omega
+    have hlen : (evs.take k).length = k := by simp; omega
+    refine hi.cc c i j c' ?_ ?_ hheld hij ?_
+    · rw [sendAt_take evs k i (by omega)]; exact hsi
+    · intro m h1 h2
+      rw [hlen] at h2
+      rw [evAt_take evs k m h2]
+      exact hnr m h1 h2
+    · rw [sendAt_take evs k j hjk]; exact hsj
+
+/-- the monitor `multicommAtomicB` decides the clause -/
+theorem multicommAtomicB_sound (log : Log) (h : MulticommAtomic log) : multicommAtomicB log = true := by
+  simp only [multicommAtomicB, allBelow, List.all_eq_true, List.mem_range]
+  intro k _ j hjk i hij
+  cases hsi : sendAt log i with
+  | none => rfl
+  | some c =>
+    cases hsj : sendAt log j with
+    | none => rfl
+    | some c' =>
+      simp only [Bool.or_eq_true, Bool.not_eq_eq_eq_not, Bool.not_true, beq_eq_false_iff_ne, ne_eq, beq_iff_eq]
+      by_cases hsk : sendAt log k = some c
+      · by_cases hnr : (allBetween i k fun m => !isRetOf c (evAt log m)) = true
+        · right
+          apply h i j k c c' hij hjk hsi hsk _ hsj
+          intro m h1 h2
+          simp only [allBetween, List.all_eq_true, List.mem_range, Bool.or_eq_true, Bool.not_eq_eq_eq_not, Bool.not_true,
+            decide_eq_false_iff_not] at hnr
+          rcases hnr m h2 with h3 | h3
+          · omega
+          · simpa using h3
+        · left; right; simpa using hnr
+      · left; left; exact hsk
+
+/-- non-vacuity: an accepted run of two callers (a multicomm of two requests against a communicate) -/
+example : Accepted findingCfgA [] atomicRun ∧ 0 < (atomicRun.filter (fun e => match e.ev with | .send _ _ _ _ => true | _ => false)).length := by
+  unfold Accepted; decide
 
 /-- stale data discarded, step level: a `send` is accepted only from the drain state, when everything that had
 arrived on the connection has been read away and the device has not closed; the receive buffer is emptied -/
